@@ -549,8 +549,9 @@ pub fn generate(seed: u64, k_seeds: usize) -> Sc {
                 5 => all_rows[i].1[C_ACTION] = String::new(),
                 6 => all_rows[i].1[C_SPLIT] = "two-for-one".to_string(),
                 _ => {
+                    // (an explicit rate: no row without look-ups may ever reach for the network)
                     all_rows[i].1[C_CUR] = "USD".to_string();
-                    all_rows[i].1[C_FX] = String::new();
+                    all_rows[i].1[C_FX] = "1.2500".to_string();
                     all_rows[i].1[C_ACTION] = "SfLA".to_string();
                 }
             }
